@@ -865,6 +865,10 @@ class FakeSocket(object):
         if act and act[0] == "error":
             self.net.iolog.append({"s": self.name, "op": "send", "asked": len(data), "kind": "error", "k": 0})
             raise socket.error(act[1], "injected")
+        if act and act[0] == "timeout":
+            # a send that times out (possibly after part of the packet went out): for a stream that is as fatal as any error
+            self.net.iolog.append({"s": self.name, "op": "send", "asked": len(data), "kind": "error", "k": 0})
+            raise socket.timeout("timed out")
         if self.shut_wr or self.peer.closed:
             self.net.iolog.append({"s": self.name, "op": "send", "asked": len(data), "kind": "error", "k": 0})
             raise socket.error(errno.EPIPE, "Broken pipe")
